@@ -11,6 +11,8 @@ import (
 	"fmt"
 	"os"
 	"strings"
+	"sync"
+	"sync/atomic"
 	"testing"
 	"testing/synctest"
 	"time"
@@ -31,8 +33,12 @@ var (
 	flagBudget = flag.Float64("budget", 120, "seconds")
 )
 
-// Events: sub<i> unsub<i> pub<j> tick (window) wait (publish timeout); a
-// trailing '!' on sub marks a stalled consumer (never reads until the end).
+// Events: sub<i> unsub<i> pub<j> tick (advance one batch window) half (advance
+// half a window, so that publishes fall at different offsets to the ticker).
+// Each subscriber has a mode: 'r' reads its channel promptly (a goroutine, like
+// the watch stream handler), 's' is a stalled consumer (never reads until the
+// end); and either leaves inside the sequence (program [sub, unsub]) or stays
+// until the horizon has passed (program [sub]).
 
 type result struct {
 	Evaluations int            `json:"evaluations"`
@@ -61,59 +67,119 @@ var docKey = types.DocRefKey{ProjectID: "000000000000000000000001", DocID: "0000
 
 const window = 100 * time.Millisecond
 const publishTimeout = 100 * time.Millisecond
+const maxFailures = 2
 
-// runCase executes one event sequence in a fresh bubble and returns a
-// disagreement with the oracle ("" = fine) and an outcome key.
-func runCase(t *testing.T, seq []string, nsub int, stalled map[int]bool) (diff string, outcome string) {
+// caseSpec is one execution: the event sequence plus the subscribers' modes.
+type caseSpec struct {
+	Seq     []string `json:"seq"`
+	NSub    int      `json:"nsub"`
+	Stalled []int    `json:"stalled"`
+	// Self: publisher 0 publishes under subscriber 0's actor id (a watcher that
+	// also edits); its own notifications are filtered and not required.
+	Self bool `json:"self"`
+}
+
+func (c caseSpec) stalled(i int) bool {
+	for _, j := range c.Stalled {
+		if i == j {
+			return true
+		}
+	}
+	return false
+}
+
+// runCase executes one case in a fresh bubble and returns a disagreement with
+// the oracle ("" = fine) and an outcome key.
+func runCase(t *testing.T, c caseSpec) (diff string, outcome string) {
+	seq, nsub := c.Seq, c.NSub
+	nStalled := len(c.Stalled)
+	// Every notification accepted after a watcher subscribed reaches a reading
+	// watcher within: the rest of the current window, one more window when the
+	// flush loop was busy and skipped a tick, and the time the flush loop can
+	// spend on stalled consumers (each costs at most maxFailures timeouts before
+	// it is closed, over its whole life).
+	bound := 3*window + time.Duration(nStalled*maxFailures)*publishTimeout
 	synctest.Test(t, func(t *testing.T) {
 		ps := pubsub.New()
 		ctx := context.Background()
 		subs := make([]*pubsub.DocSubscription, nsub)
-		// received[i]: events read by subscriber i with the position at which they were read
 		type rcv struct {
 			pos   int
+			at    time.Time
 			actor string
 		}
+		var mu sync.Mutex
 		received := make([][]rcv, nsub)
-		closedAt := make([]int, nsub) // position at which the consumer saw its channel closed (-1 never)
+		closedAt := make([]time.Time, nsub) // when the consumer saw its channel closed
+		closedSeen := make([]bool, nsub)
+		var curPos atomic.Int64
 		subPos := make([]int, nsub)
 		unsubPos := make([]int, nsub)
-		for i := range closedAt {
-			closedAt[i], subPos[i], unsubPos[i] = -1, -1, -1
+		unsubAt := make([]time.Time, nsub) // when Unsubscribe was called
+		for i := range subPos {
+			subPos[i], unsubPos[i] = -1, -1
 		}
 		type pubRec struct {
-			pos, actor int
-			at         time.Time
+			pos   int
+			actor yktime.ActorID
+			at    time.Time
 		}
-		unsubAt := make([]time.Time, nsub)
 		var pubs []pubRec
-		drain := func(i, pos int) {
-			if subs[i] == nil {
-				return
+		reader := func(i int) {
+			for ev := range subs[i].Events() {
+				mu.Lock()
+				received[i] = append(received[i], rcv{int(curPos.Load()), time.Now(), ev.Actor.String()})
+				mu.Unlock()
 			}
+			mu.Lock()
+			closedAt[i], closedSeen[i] = time.Now(), true
+			mu.Unlock()
+		}
+		drainStalled := func(i int) {
 			for {
 				select {
 				case ev, ok := <-subs[i].Events():
 					if !ok {
-						if closedAt[i] < 0 {
-							closedAt[i] = pos
+						mu.Lock()
+						if !closedSeen[i] {
+							closedAt[i], closedSeen[i] = time.Now(), true
 						}
+						mu.Unlock()
 						return
 					}
-					received[i] = append(received[i], rcv{pos, ev.Actor.String()})
+					mu.Lock()
+					received[i] = append(received[i], rcv{int(curPos.Load()), time.Now(), ev.Actor.String()})
+					mu.Unlock()
 				default:
 					return
 				}
 			}
 		}
-		settle := func(pos int) {
-			synctest.Wait()
-			for i := 0; i < nsub; i++ {
-				if !stalled[i] {
-					drain(i, pos)
-				}
+		// The batch publisher holds a subscription's mutex while it waits
+		// (publishTimeout) for a stalled consumer; Unsubscribe then waits for that
+		// mutex. A goroutine waiting for a mutex is not "durably blocked" for
+		// synctest, so virtual time could not advance and the bubble would hang
+		// (real time would simply pass): let the timed sends that can still be
+		// pending run out before a stalled consumer is unsubscribed.
+		letTimedSendsRunOut := func() {
+			for k := 0; k < nStalled*maxFailures+3; k++ {
+				time.Sleep(publishTimeout)
+				synctest.Wait()
 			}
-			synctest.Wait()
+		}
+		unsubscribe := func(i, pos int) {
+			if c.stalled(i) {
+				letTimedSendsRunOut()
+			}
+			unsubAt[i] = time.Now()
+			ps.Unsubscribe(ctx, docKey, subs[i])
+			unsubPos[i] = pos
+		}
+		pubActor := func(j int) yktime.ActorID {
+			if c.Self && j == 0 {
+				return actor(0)
+			}
+			return actor(10 + j)
 		}
 		var panicMsg string
 		func() {
@@ -123,6 +189,7 @@ func runCase(t *testing.T, seq []string, nsub int, stalled map[int]bool) (diff s
 				}
 			}()
 			for pos, ev := range seq {
+				curPos.Store(int64(pos))
 				switch {
 				case strings.HasPrefix(ev, "sub"):
 					var i int
@@ -134,67 +201,61 @@ func runCase(t *testing.T, seq []string, nsub int, stalled map[int]bool) (diff s
 					}
 					subs[i] = s
 					subPos[i] = pos
+					if !c.stalled(i) {
+						go reader(i)
+					}
 				case strings.HasPrefix(ev, "unsub"):
 					var i int
 					fmt.Sscanf(ev, "unsub%d", &i)
 					if subs[i] != nil {
-						if !stalled[i] {
-							drain(i, pos)
-						} else {
-							// The batch publisher holds the subscription's mutex while it waits
-							// (publishTimeout) for a stalled consumer; Unsubscribe then waits for
-							// that mutex. A goroutine waiting for a mutex is not "durably blocked"
-							// for synctest, so virtual time could not advance: let the pending
-							// timed sends to this consumer run out first (real time would do the same).
-							for k := 0; k < 2*(len(pubs)+1); k++ {
-								time.Sleep(publishTimeout)
-								synctest.Wait()
-							}
-						}
-						unsubAt[i] = time.Now()
-						ps.Unsubscribe(ctx, docKey, subs[i])
-						unsubPos[i] = pos
+						unsubscribe(i, pos)
 					}
 				case strings.HasPrefix(ev, "pub"):
 					var j int
 					fmt.Sscanf(ev, "pub%d", &j)
-					ps.Publish(ctx, actor(10+j), events.DocEvent{Type: events.DocChanged, Key: docKey, Actor: actor(10 + j)})
-					pubs = append(pubs, pubRec{pos, 10 + j, time.Now()})
+					a := pubActor(j)
+					ps.Publish(ctx, a, events.DocEvent{Type: events.DocChanged, Key: docKey, Actor: a})
+					pubs = append(pubs, pubRec{pos, a, time.Now()})
 				case ev == "tick":
 					time.Sleep(window)
-				case ev == "wait":
-					time.Sleep(publishTimeout)
+				case ev == "half":
+					time.Sleep(window / 2)
 				}
-				settle(pos)
+				synctest.Wait()
 			}
-			// horizon: enough virtual time for every pending batch and every timeout
+			// horizon: every delivery bound has passed
 			end := len(seq)
-			for k := 0; k < 8; k++ {
-				time.Sleep(window + publishTimeout)
-				settle(end + k)
+			curPos.Store(int64(end))
+			for el := time.Duration(0); el <= bound+window; el += window / 2 {
+				time.Sleep(window / 2)
+				synctest.Wait()
 			}
 			// stalled consumers finally look at their channel
+			curPos.Store(int64(end + 100))
 			for i := 0; i < nsub; i++ {
-				if stalled[i] {
-					drain(i, end+100)
+				if subs[i] != nil && c.stalled(i) && unsubPos[i] < 0 {
+					drainStalled(i)
 				}
 			}
-			// everybody leaves
+			// everybody who stayed leaves
 			for i := 0; i < nsub; i++ {
 				if subs[i] != nil && unsubPos[i] < 0 {
-					for k := 0; k < 2*(len(pubs)+1); k++ {
-						time.Sleep(publishTimeout)
-						synctest.Wait()
-					}
-					unsubAt[i] = time.Now()
-					ps.Unsubscribe(ctx, docKey, subs[i])
-					unsubPos[i] = end + 200
+					unsubscribe(i, end+200)
 				}
 			}
 			for k := 0; k < 3; k++ {
 				time.Sleep(window + publishTimeout)
 				synctest.Wait()
 			}
+			// what a stalled consumer that left early still finds in its closed channel
+			for i := 0; i < nsub; i++ {
+				if subs[i] != nil && c.stalled(i) {
+					for ev := range subs[i].Events() {
+						received[i] = append(received[i], rcv{unsubPos[i], unsubAt[i], ev.Actor.String()})
+					}
+				}
+			}
+			synctest.Wait()
 		}()
 		if panicMsg != "" {
 			diff = "panic: " + panicMsg
@@ -203,67 +264,70 @@ func runCase(t *testing.T, seq []string, nsub int, stalled map[int]bool) (diff s
 		if diff != "" {
 			return
 		}
-		// oracle 1: a subscriber whose Subscribe returned before the Publish was
-		// called and whose Unsubscribe started after it returned is told (an event
-		// of that actor read at or after the publish) or sees its channel closed
-		delivered := 0
+		mu.Lock()
+		defer mu.Unlock()
+		// oracle 1: a watcher whose Subscribe returned before the Publish was
+		// called and that stays for at least the bound afterwards reads a
+		// notification of that actor within the bound - or its stream is closed
+		// by the server (it then re-establishes the watch and syncs). A stalled
+		// consumer keeps at most one notification (buffer of 1); notifications are
+		// triggers ("the document changed, sync"), so whichever one it finally
+		// reads after the publish counts.
+		delivered, required := 0, 0
 		for _, p := range pubs {
 			for i := 0; i < nsub; i++ {
-				if subPos[i] < 0 || !(subPos[i] < p.pos && p.pos < unsubPos[i]) {
+				if subPos[i] < 0 || subPos[i] > p.pos {
 					continue
 				}
-				// "within bounded time": the batch window plus one publish timeout per
-				// (subscriber, pending event) that may be stalled ahead of this one
-				bound := window + time.Duration(2*nsub*(len(pubs)+1))*publishTimeout
-				if unsubAt[i].Sub(p.at) < bound {
-					continue // the subscriber left before the bound elapsed
+				if actor(i).Compare(p.actor) == 0 {
+					continue // its own change
 				}
+				deadline := p.at.Add(bound)
+				if unsubAt[i].Before(deadline) {
+					continue // left before the bound elapsed
+				}
+				required++
 				ok := false
 				for _, r := range received[i] {
-					if r.actor == actor(p.actor).String() && r.pos >= p.pos {
-						ok = true
-					}
-					// A consumer that does not read keeps at most one notification (buffer
-					// of 1) and later ones time out. Notifications are triggers ("the
-					// document changed, sync"): whichever one it finally reads makes it
-					// fetch every change, so for a stalled consumer any notification read
-					// after the publish counts.
-					if stalled[i] && r.pos >= p.pos {
+					if c.stalled(i) {
+						if r.pos >= p.pos {
+							ok = true
+						}
+					} else if r.actor == p.actor.String() && !r.at.Before(p.at) && !r.at.After(deadline) {
 						ok = true
 					}
 				}
-				if closedAt[i] >= 0 && closedAt[i] < unsubPos[i] {
-					ok = true // the stream was closed by the server: the watcher re-establishes it
+				if closedSeen[i] && closedAt[i].Before(unsubAt[i]) {
+					ok = true
 				}
 				if !ok {
-					diff = fmt.Sprintf("subscriber %d (subscribed at %d, unsubscribed at %d, stalled=%v) was not told about publish at %d by actor %d; received %v closedAt %d",
-						i, subPos[i], unsubPos[i], stalled[i], p.pos, p.actor, received[i], closedAt[i])
+					diff = fmt.Sprintf("subscriber %d (subscribed at %d, unsubscribed at %d, stalled=%v) was not told within %v about publish at %d by actor %s; received %v",
+						i, subPos[i], unsubPos[i], c.stalled(i), bound, p.pos, p.actor, received[i])
 					return
 				}
 				delivered++
 			}
 		}
-		// oracle 2: nothing new arrives after Unsubscribe returned
+		// oracle 2: whatever a subscriber reads stems from a publish made before it
+		// unsubscribed (a batch flushed just after Subscribe may carry a slightly
+		// older notification: the property does not forbid that)
 		for i := 0; i < nsub; i++ {
-			if subs[i] == nil {
-				continue
-			}
-			for {
-				ev, ok := <-subs[i].Events()
-				if !ok {
-					break
-				}
-				// an event still buffered was sent before the close; it must stem from a publish before the unsubscribe
-				before := false
+			for _, r := range received[i] {
+				okp := false
 				for _, p := range pubs {
-					if actor(p.actor).String() == ev.Actor.String() && p.pos < unsubPos[i] {
-						before = true
+					if p.actor.String() == r.actor && p.pos < unsubPos[i] {
+						okp = true
 					}
 				}
-				if !before {
-					diff = fmt.Sprintf("subscriber %d read an event of actor %s after it unsubscribed", i, ev.Actor)
+				if !okp {
+					diff = fmt.Sprintf("subscriber %d (subscribed at %d, unsubscribed at %d) read a notification of actor %s that no publish before its Unsubscribe explains",
+						i, subPos[i], unsubPos[i], r.actor)
 					return
 				}
+			}
+			if subs[i] != nil && !c.stalled(i) && !closedSeen[i] {
+				diff = fmt.Sprintf("subscriber %d: channel still open after Unsubscribe", i)
+				return
 			}
 		}
 		// oracle 3: nothing leaks
@@ -273,24 +337,39 @@ func runCase(t *testing.T, seq []string, nsub int, stalled map[int]bool) (diff s
 		}
 		// Goroutines left blocked in the bubble when it ends make synctest.Test
 		// panic ("blocked goroutines remain"): the launcher reports that as a leak.
-		outcome = fmt.Sprintf("delivered=%d closed=%v", delivered, closedAt)
+		nclosed := 0
+		for i := range closedSeen {
+			if closedSeen[i] && closedAt[i].Before(unsubAt[i]) {
+				nclosed++
+			}
+		}
+		outcome = fmt.Sprintf("required=%d delivered=%d closed-by-server=%d", required, delivered, nclosed)
 	})
 	return diff, outcome
 }
 
-// sequences enumerates every interleaving of the subscribers' [sub,unsub]
-// programs, the publishers' [pub] programs and up to maxEnv environment events.
-func sequences(nsub, npub, maxEnv int, yield func(seq []string) bool) {
+// sequences enumerates every interleaving of the subscribers' programs ([sub,
+// unsub], or [sub] for those in stay), the publishers' [pub x perPub] programs
+// and up to maxEnv clock events.
+func sequences(nsub, npub, perPub, maxEnv int, stay map[int]bool, self bool, yield func(seq []string) bool) {
 	type prog struct {
 		evs []string
 		pc  int
 	}
 	var progs []*prog
 	for i := 0; i < nsub; i++ {
-		progs = append(progs, &prog{evs: []string{fmt.Sprintf("sub%d", i), fmt.Sprintf("unsub%d", i)}})
+		evs := []string{fmt.Sprintf("sub%d", i)}
+		if !stay[i] {
+			evs = append(evs, fmt.Sprintf("unsub%d", i))
+		}
+		progs = append(progs, &prog{evs: evs})
 	}
 	for j := 0; j < npub; j++ {
-		progs = append(progs, &prog{evs: []string{fmt.Sprintf("pub%d", j)}})
+		var evs []string
+		for k := 0; k < perPub; k++ {
+			evs = append(evs, fmt.Sprintf("pub%d", j))
+		}
+		progs = append(progs, &prog{evs: evs})
 	}
 	var seq []string
 	env := 0
@@ -309,8 +388,9 @@ func sequences(nsub, npub, maxEnv int, yield func(seq []string) bool) {
 			if p.pc >= len(p.evs) {
 				continue
 			}
-			// symmetry: identical publishers fire in index order
-			if pi >= nsub && pi > nsub && progs[pi-1].pc == 0 {
+			// symmetry: identical publishers start in index order (publisher 0 is
+			// different from the others when it publishes under a subscriber's id)
+			if pi > nsub && !(self && pi == nsub+1) && progs[pi-1].pc == 0 {
 				continue
 			}
 			seq = append(seq, p.evs[p.pc])
@@ -323,10 +403,7 @@ func sequences(nsub, npub, maxEnv int, yield func(seq []string) bool) {
 			}
 		}
 		if env < maxEnv && len(seq) > 0 {
-			for _, e := range []string{"tick", "wait"} {
-				if e == "wait" && seq[len(seq)-1] == "tick" {
-					continue // tick;wait == wait;tick in effect (both advance the clock): keep one order
-				}
+			for _, e := range []string{"tick", "half"} {
 				seq = append(seq, e)
 				env++
 				ok := rec()
@@ -344,50 +421,56 @@ func sequences(nsub, npub, maxEnv int, yield func(seq []string) bool) {
 
 func TestC17(t *testing.T) {
 	_ = logging.SetLogLevel("fatal")
-	prev := pubsub.SetDefaultMaxConsecutivePublishFailures(2)
+	prev := pubsub.SetDefaultMaxConsecutivePublishFailures(maxFailures)
 	defer pubsub.SetDefaultMaxConsecutivePublishFailures(prev)
 	res := &result{Outcomes: map[string]int{}, Counters: map[string]int{}}
 	deadline := time.Now().Add(time.Duration(*flagBudget * float64(time.Second)))
 	if *flagCase != "" {
-		var c struct {
-			Seq     []string `json:"seq"`
-			NSub    int      `json:"nsub"`
-			Stalled []int    `json:"stalled"`
-		}
+		var c caseSpec
 		if err := json.Unmarshal([]byte(*flagCase), &c); err != nil {
 			t.Fatal(err)
 		}
-		st := map[int]bool{}
-		for _, i := range c.Stalled {
-			st[i] = true
-		}
-		diff, _ := runCase(t, c.Seq, c.NSub, st)
+		diff, _ := runCase(t, c)
 		if diff != "" {
 			res.Found = append(res.Found, found{Kind: "watch", Detail: diff})
 		}
 		writeResult(res)
 		return
 	}
-	type cfg struct{ nsub, npub, env int }
-	cfgs := []cfg{{1, 1, 2}, {2, 1, 2}, {1, 2, 2}, {2, 2, 1}}
+	// per is the number of publishes of each publisher: the batch publisher
+	// keeps at most two pending DocChanged events per publishing actor, so 3
+	// publishes of one actor and 2+1 of two actors inside one window are the
+	// smallest inputs that reach its de-duplication. self: publisher 0 is
+	// subscriber 0 (reaches the own-event filter).
+	type cfg struct {
+		nsub, npub, per, env int
+		self                 bool
+	}
+	cfgs := []cfg{{1, 1, 1, 2, false}, {1, 1, 3, 2, false}, {2, 1, 1, 2, true}, {2, 1, 2, 2, false}, {1, 2, 1, 2, false}, {1, 2, 2, 2, false},
+		{2, 2, 1, 1, true}, {2, 2, 2, 1, false}}
 	if *flagTier == "thorough" {
-		cfgs = []cfg{{1, 1, 3}, {2, 1, 3}, {1, 2, 3}, {2, 2, 2}, {3, 1, 2}, {3, 2, 1}, {2, 3, 1}}
+		cfgs = []cfg{{1, 1, 1, 3, false}, {1, 1, 3, 3, false}, {2, 1, 1, 3, true}, {2, 1, 3, 2, true}, {1, 2, 1, 3, false}, {1, 2, 2, 3, false}, {1, 2, 3, 2, false},
+			{2, 2, 1, 2, true}, {2, 2, 2, 2, false}, {2, 2, 2, 1, true}, {3, 1, 1, 2, true}, {3, 1, 2, 1, false}, {3, 2, 1, 1, true}, {2, 3, 1, 1, false},
+			{1, 3, 2, 2, false}, {2, 3, 2, 1, false}}
 	}
 	job := 0
 	for _, c := range cfgs {
-		name := fmt.Sprintf("subs%d/pubs%d/env<=%d", c.nsub, c.npub, c.env)
-		// which subscribers are stalled consumers: every subset
+		name := fmt.Sprintf("subs%d/pubs%dx%d/env<=%d/self=%v", c.nsub, c.npub, c.per, c.env, c.self)
+		// every subscriber is a prompt reader or a stalled consumer, and leaves
+		// inside the sequence or stays until the horizon: every combination
 		incomplete := false
-		for mask := 0; mask < 1<<c.nsub && !incomplete; mask++ {
-			stalled := map[int]bool{}
+		for mask := 0; mask < 1<<(2*c.nsub) && !incomplete; mask++ {
+			stay := map[int]bool{}
 			var sl []int
 			for i := 0; i < c.nsub; i++ {
-				if mask&(1<<i) != 0 {
-					stalled[i] = true
+				if mask&(1<<(2*i)) != 0 {
 					sl = append(sl, i)
 				}
+				if mask&(1<<(2*i+1)) != 0 {
+					stay[i] = true
+				}
 			}
-			sequences(c.nsub, c.npub, c.env, func(seq []string) bool {
+			sequences(c.nsub, c.npub, c.per, c.env, stay, c.self, func(seq []string) bool {
 				job++
 				if job%*flagShards != *flagShard {
 					return true
@@ -396,16 +479,17 @@ func TestC17(t *testing.T) {
 					incomplete = true
 					return false
 				}
-				diff, outcome := runCase(t, seq, c.nsub, stalled)
+				cs := caseSpec{Seq: seq, NSub: c.nsub, Stalled: sl, Self: c.self}
+				diff, outcome := runCase(t, cs)
 				res.Evaluations++
 				if c.nsub+c.npub >= 3 {
 					res.Nontrivial++
 				}
 				res.Outcomes[outcome]++
 				if diff != "" {
-					raw, _ := json.Marshal(map[string]any{"seq": seq, "nsub": c.nsub, "stalled": sl})
-					res.Found = append(res.Found, found{Kind: "watch", Detail: diff + "\nsequence: " + strings.Join(seq, " "), Case: string(raw),
-						Core: "watch|" + normalise(diff)})
+					raw, _ := json.Marshal(cs)
+					res.Found = append(res.Found, found{Kind: "watch", Detail: diff + "\nsequence: " + strings.Join(seq, " ") + fmt.Sprintf(" (stalled consumers %v)", sl),
+						Case: string(raw), Core: "watch|" + normalise(diff)})
 					if len(res.Found) > 50 {
 						return false
 					}
